@@ -34,6 +34,7 @@ SHIM_CONTRACTS = {
     "1e-100 / nextafter(0,1) regularisers": "taken as 0 (their effect is <= 1e-100 absolute)",
     "lsmr": "contract: returns the exact minimum-norm least-squares solution (computed in rationals); convergence of scipy's iterative lsmr is outside the claim",
     "np.allclose": "evaluated on the concrete (rational) operands",
+    "eigsh": "contract: largest eigenvalue of the symmetric operator, computed densely (deterministic), rounded to 12 digits",
 }
 
 
@@ -176,6 +177,8 @@ class NPProxy(types.ModuleType):
         return _np.exp(a, out=out) if out is not None else _np.exp(a)
 
     def log(self, a, out=None):
+        if isinstance(a, (list, tuple)) and any(isinstance(x, Sym) for x in a):
+            a = self.array(a)
         if isinstance(a, Sym):
             return a.log()
         if isinstance(a, _np.ndarray) and a.dtype == object:
@@ -209,6 +212,38 @@ class NPProxy(types.ModuleType):
     def isscalar(self, x):
         return isinstance(x, Sym) or _np.isscalar(x)
 
+    @property
+    def random(self):
+        return RNG["obj"] if RNG["obj"] is not None else _np.random
+
+    def array(self, obj, *a, **kw):
+        if isinstance(obj, (list, tuple)) and any(isinstance(x, Sym) for x in obj):
+            out = _np.empty(len(obj), dtype=object)
+            for i, x in enumerate(obj):
+                out[i] = x
+            return out
+        if isinstance(obj, _np.ndarray) and obj.dtype == object and has_sym(obj):
+            return obj.copy()
+        return _np.array(obj, *a, **kw)
+
+    def asarray(self, obj, *a, **kw):
+        if isinstance(obj, _np.ndarray) and obj.dtype == object and has_sym(obj):
+            return obj
+        if isinstance(obj, (list, tuple)) and any(isinstance(x, Sym) for x in obj):
+            return self.array(obj)
+        return _np.asarray(obj, *a, **kw)
+
+    def fromiter(self, it, dtype=float, count=-1, **kw):
+        items = list(it)
+        if count is not None and count >= 0:
+            items = items[:count]
+        if any(isinstance(x, Sym) for x in items):
+            return self.array(items)
+        return _np.fromiter(items, dtype=dtype, count=len(items))
+
+    def abs(self, a):
+        return _np.abs(a)
+
     def allclose(self, a, b, **kw):
         def conc(x):
             if isinstance(x, _np.ndarray) and x.dtype == object:
@@ -224,7 +259,55 @@ class NPProxy(types.ModuleType):
         return _np.nextafter(a, b)
 
 
+RNG = {"obj": None}     # event-recording stand-in for numpy.random inside repo modules (set by the mechanism checks)
 NP = NPProxy()
+
+
+class Recorder:
+    """stands in for numpy.random / a prng: records every draw; outcomes are chosen by the harness.
+    contract: samplers draw from the distribution whose parameters they are passed"""
+
+    def __init__(self, choose=None, fresh=None):
+        self.events = []
+        self.choose = choose or (lambda ev: 0)
+        self.fresh = fresh
+
+    def choice(self, a, size=None, replace=True, p=None):
+        ev = {"kind": "choice", "a": a, "size": size, "replace": replace, "p": p}
+        self.events.append(ev)
+        return self.choose(ev)
+
+    def normal(self, loc=0.0, scale=1.0, size=None):
+        ev = {"kind": "normal", "loc": loc, "scale": scale, "size": size}
+        self.events.append(ev)
+        return self._draw(ev)
+
+    def laplace(self, loc=0.0, scale=1.0, size=None):
+        ev = {"kind": "laplace", "loc": loc, "scale": scale, "size": size}
+        self.events.append(ev)
+        return self._draw(ev)
+
+    def _draw(self, ev):
+        n = ev["size"]
+        k = len(self.events)
+        if self.fresh is None:
+            if n is None:
+                return SR.var("z!%d" % k)
+            n = int(n)
+            out = _np.empty(n, dtype=object)
+            for i in range(n):
+                out[i] = SR.var("z!%d_%d" % (k, i))
+            return out
+        return self.fresh(ev, k)
+
+    def rand(self, *a):
+        raise core.SymError("rand() not modelled")
+
+    def permutation(self, n):
+        return _np.arange(n)
+
+    def shuffle(self, x):
+        return None
 
 
 def sym_float(x=0.0):
@@ -516,3 +599,20 @@ def lsmr_by_contract(A, b, atol=0, btol=0, **kw):
         out[i] = x
     ST.events.append(("lsmr", len(Af), len(Af[0])))
     return (out, 1, 0, 0.0, 0.0, 0.0, 0.0, 0.0)
+
+
+def eigsh_by_contract(A, k=1, **kw):
+    """stands in for scipy.sparse.linalg.eigsh(A, 1): contract = the largest eigenvalue of the symmetric operator A, computed densely and
+    deterministically (ARPACK starts from a random vector, so two calls differ in the last bits, which exact terms would expose)"""
+    import scipy.sparse as sp
+    from scipy.sparse.linalg import LinearOperator
+    if sp.issparse(A):
+        M = A.toarray()
+    elif isinstance(A, LinearOperator):
+        M = A @ _np.eye(A.shape[1])
+    else:
+        M = _np.asarray(A, dtype=float)
+    w = _np.linalg.eigvalsh((M + M.T) / 2.0)
+    lam = float(round(w[-1], 12))
+    ST.events.append(("eigsh", M.shape[0]))
+    return _np.array([lam]), None
